@@ -41,6 +41,10 @@ pub mod hist_index;
 #[path = "/verif/harness/hist_user.rs"]
 pub mod hist_user;
 
+#[cfg(all(not(kani), test))]
+#[path = "/verif/harness/hist_console.rs"]
+pub mod hist_console;
+
 #[path = "/verif/harness/c05.rs"]
 pub mod c05;
 
@@ -89,6 +93,10 @@ mod replay_entry {
         }
         if module == "c11actor" {
             super::hist_naming::replay_file();
+            return;
+        }
+        if module == "console" {
+            super::hist_console::replay_file();
             return;
         }
         if module == "user" {
